@@ -24,7 +24,16 @@ pub enum Req {
     #[serde(rename = "run_bytes")]
     RunBytes { program: String, env: String, flags: u32, max_cost: u64 },
     #[serde(rename = "serde")]
-    Serde { func: String, data: String },
+    Serde {
+        func: String,
+        data: String,
+        #[serde(default)]
+        max_atom_len: Option<u64>,
+        #[serde(default)]
+        strict: Option<bool>,
+        #[serde(default)]
+        level: Option<u32>,
+    },
     /// decode a choice tape into a program/environment (classic bytes, hex)
     #[serde(rename = "gen")]
     Gen { tape: Vec<u32>, what: String },
@@ -153,7 +162,9 @@ pub fn handle(req: &Req) -> Resp {
             });
             finish(&a, r, true)
         }
-        Req::Serde { func, data } => serde_func(func, data),
+        Req::Serde { func, data, max_atom_len, strict, level } => {
+            serde_func(func, data, max_atom_len.unwrap_or(1 << 20) as usize, strict.unwrap_or(true), level.unwrap_or(0))
+        }
         Req::Gen { tape, what } => {
             use crate::r#gen::programs::{ProgCfg, gen_program};
             use crate::model::refserde::encode_classic;
@@ -170,6 +181,22 @@ pub fn handle(req: &Req) -> Resp {
                 "bytes" => {
                     let b = crate::r#gen::bytes::gen_classic_bytes(&mut t);
                     Resp { kind: "Ok".into(), value_hex: hex::encode(b), ..Default::default() }
+                }
+                "bytes_backrefs" => {
+                    let c = crate::checks::c18::gen_bytes(&mut t);
+                    Resp { kind: "Ok".into(), value_hex: hex::encode(c.b), ..Default::default() }
+                }
+                "bytes_2026" => {
+                    let c = crate::checks::c20::gen_blob(&mut t);
+                    Resp { kind: "Ok".into(), value_hex: hex::encode(c.b), cost: c.max_atom_len as u64, msg: c.strict.to_string(), ..Default::default() }
+                }
+                "tree" => {
+                    use crate::r#gen::trees::{TreeCfg, gen_tree};
+                    let d = gen_tree(&mut t, &TreeCfg { max_nodes: 40, max_atom: 70, ..Default::default() });
+                    match encode_classic(&d, 1 << 22) {
+                        Some(b) => Resp { kind: "Ok".into(), value_hex: hex::encode(b), ..Default::default() },
+                        None => Resp { kind: "TOOBIG".into(), ..Default::default() },
+                    }
                 }
                 _ => Resp { kind: "BADREQ".into(), ..Default::default() },
             }
@@ -204,7 +231,7 @@ pub fn handle(req: &Req) -> Resp {
 }
 
 /// serialization functions for the Python differential checks; `data` is hex
-fn serde_func(func: &str, data: &str) -> Resp {
+fn serde_func(func: &str, data: &str, max_atom_len: usize, strict: bool, level: u32) -> Resp {
     use clvmr::serde::*;
     let Ok(b) = hex::decode(data) else {
         return Resp { kind: "BADHEX".into(), ..Default::default() };
@@ -222,8 +249,28 @@ fn serde_func(func: &str, data: &str) -> Resp {
                 Ok(hex::encode(node_to_bytes_limit(&a, n, 1 << 30)?))
             }
             "deser_2026" => {
-                let n = deserialize_2026(&mut a, &b, 1 << 20, true)?;
+                let n = deserialize_2026(&mut a, &b, max_atom_len, strict)?;
                 Ok(hex::encode(node_to_bytes_limit(&a, n, 1 << 30)?))
+            }
+            // the documented dispatch rule of the wheel's deser_auto: magic prefix => serde_2026, else back-references
+            "deser_auto" => {
+                let magic: [u8; 6] = [0xfd, 0xff, 0x32, 0x30, 0x32, 0x36];
+                let n = if b.starts_with(&magic) { deserialize_2026(&mut a, &b, max_atom_len, strict)? } else { node_from_bytes_backrefs(&mut a, &b)? };
+                Ok(hex::encode(node_to_bytes_limit(&a, n, 1 << 30)?))
+            }
+            // parse_triples: "s,e,x;s,e,x;...|hash hash ..." (a = atom, p = pair)
+            "triples" | "triples_nohash" => {
+                let mut cur = std::io::Cursor::new(&b[..]);
+                let (t, h) = parse_triples(&mut cur, func == "triples")?;
+                let ts: Vec<String> = t
+                    .iter()
+                    .map(|x| match x {
+                        ParsedTriple::Atom { start, end, atom_offset } => format!("{start},{end},{atom_offset}"),
+                        ParsedTriple::Pair { start, end, right_index } => format!("{start},{end},{right_index}"),
+                    })
+                    .collect();
+                let hs: Vec<String> = h.map(|v| v.iter().map(hex::encode).collect()).unwrap_or_default();
+                Ok(format!("{}|{}", ts.join(";"), hs.join(" ")))
             }
             // decode classic, answer the named serialization
             "ser_backrefs" => {
@@ -232,7 +279,11 @@ fn serde_func(func: &str, data: &str) -> Resp {
             }
             "ser_2026" => {
                 let n = node_from_bytes(&mut a, &b)?;
-                Ok(hex::encode(serialize_2026(&a, n, 0)?))
+                Ok(hex::encode(serialize_2026(&a, n, level)?))
+            }
+            "ser_legacy" => {
+                let n = node_from_bytes(&mut a, &b)?;
+                Ok(hex::encode(node_to_bytes(&a, n)?))
             }
             "serialized_length" => Ok(serialized_length_from_bytes(&b)?.to_string()),
             "serialized_length_trusted" => Ok(serialized_length_from_bytes_trusted(&b)?.to_string()),
